@@ -34,6 +34,7 @@ import (
 //vp:all stub (*github.com/gorilla/websocket.Upgrader).Upgrade = vpUpgrade
 //vp:all stub (*github.com/gorilla/websocket.Conn).Close = vpWSConnClose
 //vp:all stub (*github.com/gorilla/websocket.Conn).UnderlyingConn = vpWSUnderlying
+//vp:all model github.com/patrickmn/go-cache.New = vpmCacheNew
 //vp:all stub (*github.com/patrickmn/go-cache.Cache).Get = vpCacheGet
 //vp:all stub (*github.com/patrickmn/go-cache.Cache).Set = vpCacheSet
 //vp:all stub (*github.com/patrickmn/go-cache.Cache).ItemCount = vpCacheCount
@@ -119,6 +120,9 @@ var vpCacheGets int
 var vpExpiredAny bool
 var vpCacheSetLog []interface{}
 
+// the package-level connection cache is created at package initialisation (its methods are stubbed)
+func vpmCacheNew(d, cl time.Duration) *cache.Cache { return &cache.Cache{} }
+
 func vpCacheGet(c interface{}, k string) (interface{}, bool) {
 	vpMu.Lock()
 	defer vpMu.Unlock()
@@ -197,7 +201,6 @@ func vpResetHandlers() {
 	websocketConnections, legacyConnections, connectionCache = vpWSGauge, vpLegacyGauge, vpCacheGauge
 	Connections = nil
 	vpUUIDCtr = 0
-	c = &cache.Cache{} // the package-level connection cache (its methods are stubbed)
 }
 
 type vpHTTPW struct{ hdr http.Header }
